@@ -3,12 +3,12 @@
    the block phase hands over meets the premises of inlines_total (leaf_ok: after the right-trim run_inlines_gen does
    itself - empty, or NUL-free, valid UTF-8, first line not blank, line endings covered by the leaf's line offsets).
    The budget: parse_inlines leaves ref_size <= max_ref_size (RInv of the final state).
-   For a document without NUL the NUL clause follows from Proofs/InertParseContent.parse_blocks_leaf_contents.
+   (For a document without NUL the NUL clause is Proofs/InertParseContent.parse_blocks_leaf_contents with Q = not NUL.)
    That the block phase establishes the other three clauses is NOT proved.  No axioms. *)
 From Coq Require Import List NArith ZArith Arith Bool Strings.String Lia.
 From V Require Spec.EscapeSpec.
 From V Require Import Base.Bytes Base.Res Gen.StrLeafGen Model.Strings Model.Ast Model.RefDef Model.Blocks Model.Inlines Model.Parse
-     Proofs.StrLeafProofs Proofs.InlinesTotal2 Proofs.InlinesTotal2Sites Proofs.InlinesTotal2Walk Proofs.InertParseContent
+     Proofs.StrLeafProofs Proofs.InlinesTotal2 Proofs.InlinesTotal2Sites Proofs.InlinesTotal2Walk
      Proofs.InlinesTotal4Main.
 Import ListNotations.
 Local Open Scope list_scope.
